@@ -431,7 +431,8 @@ def classify(err):
         for text, k in (('Invalid directory record', 1), ('extent location disagree', 2), ('seqnum disagree', 2),
                         ('Record Bit not allowed', 2), ('Protection Bit not allowed', 2), ('Malformed ISO (error', 2),
                         ('Malformed ISO (KeyError', 3), ('Malformed ISO (ValueError', 5), ('Invalid padding on ISO', 6),
-                        ('Directory loop on the ISO', 7), ('Malformed ISO (IndexError', 8)):
+                        ('Directory loop on the ISO', 7), ('Malformed ISO (IndexError', 8),
+                        ('Overlapping directories on the ISO', 9)):
             if text in msg:
                 return k
     raise RuntimeError('outcome of open_fp not attributable to the directory walk: %s: %s' % (type(err).__name__, msg))
